@@ -470,6 +470,7 @@ class MBXMLDocument:
 
                 if valid_candidate:
                     t: MBXMLToken = copy(tokendef_setting)
+                    t.attributes = list(t.attributes)
                     t.token_id = tokendef_id
                     t.value = value
 
